@@ -217,6 +217,7 @@ def register(prop, run, KERNELS, C01_COVERS):
     prop("C18",
          quick=[run("C18_iter", covers=["done", "closed", "exhausted"], nmax=2, store=0, cache=0, preemptions=1),
                 run("C18_iter", covers=["done", "closed"], nmin=1, nmax=1, store=0, cache=0, preemptions=1, itermut=1),
+                run("C18_iter", covers=["done", "closed", "iterated-under-fault"], nmin=2, nmax=2, store=1, cache=2, vlenmin=1, preemptions=0, iterfault=1),
                 run("C18_reentrant", covers=["done"], nmin=1, nmax=2, store=1, cache=2)],
          thorough=[run("C18_iter", covers=["done", "closed", "exhausted"], nmax=3, store=0, cache=0, preemptions=2, budget=1800),
                    run("C18_iter", covers=["done", "closed", "exhausted"], nmin=1, nmax=1, store=1, cache=2, preemptions=1, itermut=1, vlenmin=1, budget=1800),
